@@ -102,6 +102,19 @@ CLAIMED = {
               "finite declaration tables",
     note=TB + "; specs/memory_layout.py is the trusted oracle of the layout clause; Decimal/float scaling compared "
          "structurally"),
+ "C14": dict(
+    category="proof",
+    text="The three real DT8 generator sequences are executed symbolically with every `yield` interpreted as a call of an "
+         "assumed IEC 62386-209 Tc-unit contract whose entire state (DTR0/1/2, temporary/actual Tc, limits, reported value) "
+         "is symbolic: for all tc in 0..65535 and every destination kind the unit is proved to end with exactly the "
+         "requested Tc / limit (other limits unchanged), the yielded commands are proved to be DTR0(low), DTR1(high), "
+         "[DTR2(selector)], command, [Activate] addressed as requested; for all 83 selectors and all reported values the "
+         "query returns exactly the 16-bit value, and None under MASK or silence/framing error on either answer; "
+         "out-of-range / wrong-type tc and non-enum selectors are proved to raise before anything is yielded.",
+    design_ref="DESIGN.md 6 (C14), 3.7",
+    technique="contract-based deductive verification: generator verified as a procedure against an assumed unit contract, "
+              "z3 QF_BV",
+    note=TB + "; the unit contract contracts/units/gear209.py is assumed (written from the standard), not verified"),
 }
 
 NA_REASON = "check under construction in this round (no obligations built yet); see DESIGN.md section 6"
